@@ -14,6 +14,10 @@ Driver family `vaa` (C04, C05, C06).  Case lines (fields separated by one space)
   Keccak(Keccak(·)) of the section of `out` the contracts hash (everything after `6 + 66·out[5]` bytes), computed by the harness.
 * `conc <id> what=digest|wire|process calls=<n> bad=<n> panics=<n> want=<x> got=<x> [v=<canon of the first deviating call's VAA>]` — results of calls made while other goroutines call
   into the package, `want` = what the same call returned sequentially; `got=panic:..` / `hang:..` / `crash:..` when it did not return.
+* `dseq <id> prev=<hex|-> in=<hex> res=.. [v=<canon>] [re=<hex>] [want=<canon>]` — a decode HISTORY: `Unmarshal(in)` where `in` is the caller's
+  buffer, which held `prev` at the previous decode (or: the same bytes were decoded before and that result was edited by its owner);
+  `want` = the VAA the harness hand-encoded into `in`.  Judged like `dec`, and: when `want` is in the domain and `in` is its encoding
+  (by the model's `marshal`), the decoder must return exactly `want`.
 * `enc` lines with `back=nomarshal merr=<text>`: `Marshal` returned an error (or panicked) instead of bytes.
 
 canon = `ver,gs,sigs,ts,nonce,ec,tc,emhex,seq,cl,plhex`, sigs = `-` or `idx:hex;idx:hex`.
@@ -133,6 +137,41 @@ def step (st : St) (line : String) : St × List String :=
                         else (st, [s!"diff {id} model={showCanon v} impl={showCanon iv}"])
         | _, _ => (st, [s!"diff {id} unparsable dec line"])
     | _, _ => (st, [s!"diff {id} unparsable dec line"])
+  | "dseq" :: id :: rest =>
+    match kvHex rest "prev", kvHex rest "in", kv rest "res" with
+    | some prev, some inp, some res =>
+      let m := unmarshal inp
+      let st := { st with n := st.n + 1 }
+      -- the statement's first sentence applies when the harness encoded an in-domain VAA into the buffer
+      let want : Option Vaa := match kv rest "want" >>= parseCanon with
+        | some w => if decide w.WF && marshal w == inp then some w else none
+        | none => none
+      let earlier (iv : Vaa) : Bool := prev != inp && unmarshal prev == some iv
+      if res = "panic" then (st, [s!"spec {id} decoder-panic Unmarshal panicked on {inp.length} bytes"])
+      else if res = "errnonnil" then (st, [s!"spec {id} partial-result Unmarshal returned an error together with a non-nil VAA"])
+      else if res = "err" then
+        match want, m with
+        | some w, _ => (st, [s!"spec {id} roundtrip-rejected the encoding of an in-domain VAA (payload {w.body.payload.length} bytes, {w.sigs.length} sigs) does not decode (the buffer held another message before)"])
+        | none, none => ({ st with rej := st.rej + 1 }, [s!"ok {id}"])
+        | none, some v => (st, [s!"diff {id} model accepts ({showCanon v}) impl rejects"])
+      else
+        match kv rest "v" >>= parseCanon, kvHex rest "re" with
+        | some iv, some re =>
+          if want.isSome && want ≠ some iv then
+            if earlier iv then
+              (st, [s!"spec {id} decode-depends-on-earlier-decode decoding the encoding of {(want.map showCanon).getD ""} returns the VAA of the message decoded BEFORE it (from the same buffer / the same bytes): {showCanon iv}"])
+            else (st, [s!"spec {id} roundtrip-altered decoding the encoding of {(want.map showCanon).getD ""} (after other decodes) yields {showCanon iv}"])
+          else if re ≠ inp then
+            if earlier iv then
+              (st, [s!"spec {id} decode-depends-on-earlier-decode the decoder accepted {inp.length} bytes and returned the VAA of the bytes it was given BEFORE ({showCanon iv})"])
+            else (st, [s!"spec {id} accepted-not-reencoded decoder accepted {inp.length} bytes that re-encode to {re.length} bytes (after other decodes): {showCanon iv}"])
+          else if ¬ decide iv.WF then (st, [s!"spec {id} accepted-out-of-domain decoded VAA is outside the representable range"])
+          else match m with
+            | none => (st, [s!"diff {id} model rejects, impl accepts {showCanon iv}"])
+            | some v => if v = iv then ({ st with acc := st.acc + 1 }, [s!"ok {id}"])
+                        else (st, [s!"diff {id} model={showCanon v} impl={showCanon iv}"])
+        | _, _ => (st, [s!"diff {id} unparsable dseq line"])
+    | _, _, _ => (st, [s!"diff {id} unparsable dseq line"])
   | "enc" :: id :: rest =>
     match kv rest "v" >>= parseCanon, kvHex rest "out", kv rest "back" with
     | some v, some out, some back =>
